@@ -27,6 +27,7 @@ Record xprefs := mkXprefs {
   proc_prefix : str;      (* ProcInstPrefix *)
   directive_name : str;   (* DirectiveName *)
   keep_ns : bool;         (* KeepNamespace *)
+  raw_token : bool;       (* UseRawToken: Name.Space is the prefix as written *)
   skip_proc : bool;       (* SkipProcInst *)
   skip_dir : bool         (* SkipDirectives *)
 }.
@@ -86,6 +87,10 @@ Section Xml.
   Definition attr_key (a : xname) : str :=
     attr_prefix P ++ (if keep_ns P then match fst a with [] => snd a | sp => sp ++ 58 :: snd a end else snd a).
 
+  (* the label of an element: with raw tokens and KeepNamespace the prefix is kept (repaired in /repo) *)
+  Definition elem_label (nm : xname) : str :=
+    if keep_ns P && raw_token P then match fst nm with [] => snd nm | sp => sp ++ 58 :: snd nm end else snd nm.
+
   Definition leaf (s : str) : xnode := XNode [] [s].
 
   Definition frame := (str * xnode)%type.          (* label, node under construction *)
@@ -109,7 +114,7 @@ Section Xml.
   Definition d_step (st : dstate) (t : xtok) : dres :=
     match t with
     | TStart nm attrs =>
-        DOk (mkD true (snd nm, start_node attrs) (d_cur st :: d_stack st))
+        DOk (mkD true (elem_label nm, start_node attrs) (d_cur st :: d_stack st))
     | TChar text =>
         match trim text with
         | [] => DOk (mkD true (d_cur st) (d_stack st))
@@ -150,22 +155,17 @@ Section Xml.
     | _ => XSeq (List.map XStr d)
     end.
 
+  (* createMap: one child entry becomes the converted node, several a sequence *)
+  Definition group_val (vs : list xval) : xval :=
+    match vs with [v] => v | _ => XSeq vs end.
+
   (* convertToYamlNode / createMap / createSequence *)
   Fixpoint convert (n : xnode) : xval :=
     match n with
     | XNode [] d => from_data d
     | XNode ch d =>
         XMap ((match d with [] => [] | _ => [(content_name P, from_data d)] end) ++
-              (fix entries (l : list (str * list xnode)) : list (str * xval) :=
-                 match l with
-                 | [] => []
-                 | (k, vs) :: r =>
-                     (k, match vs with
-                         | [v] => convert v
-                         | _ => XSeq ((fix seq (l : list xnode) : list xval :=
-                                         match l with [] => [] | v :: r' => convert v :: seq r' end) vs)
-                         end) :: entries r
-                 end) ch)
+              List.map (fun e => (fst e, group_val (List.map convert (snd e)))) ch)
     end.
 
   Inductive xresult :=
@@ -218,38 +218,37 @@ Section Xml.
   Definition opt_app {A : Type} (a b : option (list A)) : option (list A) :=
     match a, b with Some x, Some y => Some (x ++ y) | _, _ => None end.
 
+  Fixpoint opt_concat_map {A B : Type} (f : A -> option (list B)) (l : list A) : option (list B) :=
+    match l with
+    | [] => Some []
+    | x :: r => opt_app (f x) (opt_concat_map f r)
+    end.
+
+  (* one entry of the map in the second loop of encodeMap, [elem] being doEncode *)
+  Definition enc_entry (elem : str -> xval -> option (list xtok)) (e : str * xval) : option (list xtok) :=
+    match e with
+    | (key, x) =>
+        match classify key with
+        | KProc => Some [TProcInst (drop_prefix (proc_prefix P) key) (value_text x)]
+        | KDirective => Some [TDirective (value_text x)]
+        | KContent => Some [TChar (value_text x)]
+        | KAttr => Some []
+        | KElem => elem key x
+        end
+    end.
+
   (* doEncode for the value v under the start tag named k *)
   Fixpoint enc_elem (k : str) (v : xval) : option (list xtok) :=
     match v with
     | XNull => Some [TStart (lname k) []; TChar []; TEnd (lname k)]
     | XStr s => Some [TStart (lname k) []; TChar s; TEnd (lname k)]
-    | XSeq l =>
-        (fix items (l : list xval) : option (list xtok) :=
-           match l with
-           | [] => Some []
-           | x :: r => opt_app (enc_elem k x) (items r)
-           end) l
+    | XSeq l => opt_concat_map (fun x => enc_elem k x) l
     | XMap entries =>
         match enc_attrs entries with
         | None => None
         | Some attrs =>
             opt_app (Some [TStart (lname k) attrs])
-              (opt_app
-                 ((fix body (l : list (str * xval)) : option (list xtok) :=
-                     match l with
-                     | [] => Some []
-                     | (key, x) :: r =>
-                         opt_app
-                           (match classify key with
-                            | KProc => Some [TProcInst (drop_prefix (proc_prefix P) key) (value_text x)]
-                            | KDirective => Some [TDirective (value_text x)]
-                            | KContent => Some [TChar (value_text x)]
-                            | KAttr => Some []
-                            | KElem => enc_elem key x
-                            end)
-                           (body r)
-                     end) entries)
-                 (Some [TEnd (lname k)]))
+              (opt_app (opt_concat_map (enc_entry (fun key x => enc_elem key x)) entries) (Some [TEnd (lname k)]))
         end
     end.
 
@@ -290,7 +289,7 @@ End Xml.
 (* defaults of NewDefaultXmlPreferences *)
 Definition default_xprefs : xprefs :=
   mkXprefs [43; 64] [43; 99; 111; 110; 116; 101; 110; 116] [43; 112; 95]
-           [43; 100; 105; 114; 101; 99; 116; 105; 118; 101] true false false.
+           [43; 100; 105; 114; 101; 99; 116; 105; 118; 101] true true false false.
 
 (* trimNonGraphic restricted to ASCII edges: controls, space and DEL are
    trimmed, everything else (in particular every byte of a non-ASCII rune)
